@@ -86,7 +86,8 @@ func formatChecksum(sum []byte) string {
 }
 
 // EnvelopeChecksum returns the algorithm + expected checksum for an envelope.
-// If alg is none, ok is false (no validation).
+// If alg is none, the envelope's sha256 field is used when present (the proxy
+// always records it); ok is false only when the envelope carries no digest.
 func EnvelopeChecksum(env Envelope) (ChecksumAlg, string, bool, error) {
 	alg, err := NormalizeChecksumAlg(env.ChecksumAlg)
 	if err != nil {
@@ -94,6 +95,11 @@ func EnvelopeChecksum(env Envelope) (ChecksumAlg, string, bool, error) {
 	}
 	switch alg {
 	case ChecksumNone:
+		// "none" only means no additional checksum was requested; the
+		// sha256 field is still filled in by the proxy, so validate with it.
+		if env.SHA256 != "" {
+			return ChecksumSHA256, env.SHA256, true, nil
+		}
 		return alg, "", false, nil
 	case ChecksumSHA256:
 		if env.Checksum != "" {
